@@ -401,8 +401,16 @@ def check_model(R, xml, tags, states, P, x64=True, detail_base=None):
         P.note_max("nefc", nrow)
         causes = _known_causes(R, m, dcf, dxf, tags)
         seen = set()
+        tree = None
         for name, det in problems:
             sig = name
+            if isinstance(det, dict) and "mjx" in det and not name.startswith(("contact", "efc", "sensor_")):
+                # reference-version skew triage (see ASSUMPTIONS): does the tree's own C build side with MJX?
+                if tree is None:
+                    tree = _tree_values(xml, st) or False
+                if tree and _is_reference_skew(name, det["mjx"], tree, m, max(tol_s, 1e-6)):
+                    P.count("reference_skew_wheel_vs_tree[%s]" % name.split("[")[0])
+                    continue
             for cause, affected in causes:
                 if affected(name):
                     sig = cause
@@ -416,6 +424,58 @@ def check_model(R, xml, tags, states, P, x64=True, detail_base=None):
 
 
 DOWNSTREAM_OF_SMOOTH_FORCE = ("qfrc_smooth", "qacc_smooth", "qacc", "qfrc_constraint", "efc_force", "step_", "sensor_a", "sensor_f", "sensor_t", "sensor_jointactfrc")
+
+
+_TREE = {}
+
+
+def _tree_values(xml, st):
+    """Side channel: the tree's own C build (rel flavour) on the same XML and state -> (forward Data, stepped Data) or None."""
+    import numpy as _np
+    try:
+        from .. import drv
+        if "L" not in _TREE:
+            _TREE["L"] = drv.Lib("rel")
+        L = _TREE["L"]
+        out = []
+        for what in ("forward", "step"):
+            tm = L.load_xml_string(xml)
+            td = tm.make_data()
+            for k in ("qpos", "qvel", "act", "ctrl", "qfrc_applied", "mocap_pos", "mocap_quat", "qacc_warmstart",
+                      "xfrc_applied", "eq_active"):
+                a = td[k]
+                if getattr(a, "size", 0):
+                    a[...] = _np.asarray(st[k]).reshape(a.shape)
+            td.view_time = None
+            try:
+                td["time"][...] = st["time"]
+            except Exception:
+                pass
+            if what == "forward":
+                td.forward()
+            else:
+                td.step(1)
+            out.append(td)
+        return out
+    except Exception:
+        return None
+
+
+def _is_reference_skew(name, mjx_value, tree, m, tol):
+    """True iff the tree's C engine reproduces MJX's value for this field (so the wheel is the odd one out)."""
+    if tree is None or mjx_value is None:
+        return False
+    tf, ts = tree
+    try:
+        if name.startswith("step_"):
+            ref = ts[name[5:].split("[")[0]]
+        elif name.startswith("sensor_"):
+            return False
+        else:
+            ref = tf[name]
+        return _relerr(np.asarray(mjx_value, float).ravel(), np.asarray(ref, float).ravel()) <= tol
+    except Exception:
+        return False
 
 
 def _acc_sensor_names(mj, m):
